@@ -434,6 +434,7 @@ struct WantVal {
   std::string canon;      // value at emit time
   CallerValue *src;       // caller storage (may be null for carriers handled by hand)
   std::string kind_name;  // for messages
+  std::vector<std::string> earlier;  // values written before this one to the same field / key (overwritten)
 };
 struct Want {
   bool has_sev = false; int sev = 0;
@@ -446,7 +447,18 @@ struct Want {
   bool active = false; std::string a_tid, a_sid; int a_flg = 0;  // span active when the record was created
   std::string desc;
 };
-WantVal want_of(CallerValue *v) { return WantVal{canon_of(v->value()), v, kVKName[v->vk]}; }
+WantVal want_of(CallerValue *v) { return WantVal{canon_of(v->value()), v, kVKName[v->vk], {}}; }
+void set_attr(Want &w, const std::string &key, WantVal v) {  // last write wins per key
+  auto it = w.attrs.find(key);
+  if (it != w.attrs.end()) { v.earlier = it->second.earlier; v.earlier.push_back(it->second.canon); }
+  w.attrs[key] = v;
+}
+void set_body(Want &w, WantVal v) {
+  if (w.has_body) { v.earlier = w.body.earlier; v.earlier.push_back(w.body.canon); }
+  w.has_body = true;
+  w.body = v;
+}
+
 
 // fixed identities
 trace::TraceId tid_of(uint8_t b) { uint8_t buf[16]; memset(buf, b, 16); buf[15] = 1; return trace::TraceId(buf); }
@@ -509,6 +521,10 @@ void check_value(vf::Ctx &c, const char *pos, const std::string &key, const Want
                       "': the record refers to the caller's storage, which the caller has reused after Emit returned");
     return;
   }
+  for (auto &e : want.earlier)
+    if (got.canon == e)
+      c.fail(std::string("C13:not-the-last-write:") + pos + ":" + sink.kind,
+             ctx + ": the " + sink.kind + " exporter sees " + where + " = '" + vfq::printable(got.canon, 60) + "', which was overwritten later by '" + vfq::printable(want.canon, 60) + "'");
   c.fail(std::string("C13:wrong-value:") + pos + ":" + sink.kind,
          ctx + ": the " + sink.kind + " exporter sees " + where + " = '" + vfq::printable(got.canon, 60) + "', emitted was '" + vfq::printable(want.canon, 60) + "'");
 }
@@ -658,8 +674,8 @@ void build_args(Fixture &fx, ArgSet &s) {
 void model_arg(Want &w, const ArgSet &s, int kind) {
   switch (kind) {
     case K_SEV: w.has_sev = true; w.sev = (int)logs::Severity::kWarn; break;
-    case K_BODY: w.has_body = true; w.body = want_of(s.body); break;
-    case K_ATTR: w.attrs["key.one"] = want_of(s.v3); w.attrs["key.two"] = want_of(s.v2); break;  // key.one repeated: last write wins
+    case K_BODY: set_body(w, want_of(s.body)); break;
+    case K_ATTR: set_attr(w, "key.one", want_of(s.v1)); set_attr(w, "key.two", want_of(s.v2)); set_attr(w, "key.one", want_of(s.v3)); break;  // key.one repeated: last write wins
     case K_TS: w.has_ts = true; w.ts = kTs; break;
     case K_EV: w.has_ev = true; w.ev_id = 77; w.ev_name = "evt-name"; break;
     case K_CTX: w.x_tid = w.x_sid = w.x_flg = true; w.tid = hex(tid_of(0xc1)); w.sid = hex(sid_of(0xc1)); w.flg = 0x09; break;
@@ -755,7 +771,7 @@ void run_values(vf::Ctx &c) {
     VK vk = (VK)c.pick("kind", NVK);
     CallerValue *v = fx.val(vk, 0);
     AttributeValue av = v->value();
-    w.has_body = true; w.body = want_of(v);
+    set_body(w, want_of(v));
     d = std::string("body=AttributeValue(") + kVKName[vk] + ")";
     lg.EmitLogRecord(av);
   } else if (what == 1) {  // body: C++ carrier types
@@ -790,7 +806,7 @@ void run_values(vf::Ctx &c) {
     KvVector *kv = make_kv(fx, keep, {{k, v}});
     common::KeyValueIterableView<KvVector> view(*kv);
     const common::KeyValueIterable &base = view;
-    w.attrs["attr.key"] = want_of(v);
+    set_attr(w, "attr.key", want_of(v));
     d = std::string("attributes={attr.key: ") + kVKName[vk] + "} as KeyValueIterable";
     lg.EmitLogRecord(base);
   } else if (what == 3) {  // attribute list shapes x generic carriers
@@ -804,7 +820,7 @@ void run_values(vf::Ctx &c) {
       case 3: shape_name = "{'':string} (empty key)"; es = {{text_value(fx, ""), fx.val(V_STR, 1)}}; break;
       default: shape_name = "{a:string,b:span-string,a:int64} (duplicate key, other type)"; es = {{text_value(fx, "a"), fx.val(V_STR, 1)}, {text_value(fx, "b"), fx.val(V_SP_STR, 2)}, {text_value(fx, "a"), fx.val(V_I64, 3)}};
     }
-    for (auto &e : es) w.attrs[std::string(e.first->p, e.first->n)] = want_of(e.second);  // last write wins
+    for (auto &e : es) set_attr(w, std::string(e.first->p, e.first->n), want_of(e.second));  // last write wins
     KvVector *kv = make_kv(fx, keep, es);
     const char *cn = "";
     switch (carrier) {
@@ -836,7 +852,7 @@ void run_values(vf::Ctx &c) {
       default: d = "SpanContext temporary after trace-id (the context wins), body literal";
         lg.EmitLogRecord(tid_of(0xd1), ctx_of(0xc1, 0x09), "literal body");
         w.x_tid = w.x_sid = w.x_flg = true; w.tid = hex(tid_of(0xc1)); w.sid = hex(sid_of(0xc1)); w.flg = 9;
-        w.has_body = true; w.body = WantVal{"s:12:literal body", nullptr, "string literal"};
+        set_body(w, WantVal{"s:12:literal body", nullptr, "string literal"});
     }
   } else {  // containers with their own element types
     int carrier = c.pick("carrier", 4);
@@ -848,8 +864,8 @@ void run_values(vf::Ctx &c) {
       auto *raw = m.get();
       for (auto &kv : *raw) { fx.arena.note(kv.second.data(), kv.second.size() + 1); fx.arena.note(&kv.second, sizeof(std::string)); }
       fx.extra_scribble.push_back([raw]() { for (auto &kv : *raw) for (char &ch : kv.second) ch = scr(ch); });
-      w.attrs["k1"] = WantVal{vf::sfmt("s:%zu:", t1.size()) + t1, nullptr, "std::string in std::map"};
-      w.attrs["k2"] = WantVal{vf::sfmt("s:%zu:", t2.size()) + t2, nullptr, "std::string in std::map"};
+      set_attr(w, "k1", WantVal{vf::sfmt("s:%zu:", t1.size()) + t1, nullptr, "std::string in std::map"});
+      set_attr(w, "k2", WantVal{vf::sfmt("s:%zu:", t2.size()) + t2, nullptr, "std::string in std::map"});
       d = "attributes=std::map<std::string,std::string>";
       lg.EmitLogRecord(*raw);
     } else if (carrier == 1) {
@@ -858,16 +874,16 @@ void run_values(vf::Ctx &c) {
       keep->objs.push_back(m);
       auto *raw = m.get();
       fx.extra_scribble.push_back([raw]() { for (auto &kv : *raw) { kv.second = -1; for (char &ch : kv.first) ch = scr(ch); } });
-      w.attrs["n1"] = WantVal{"i:33", nullptr, "int64_t"};
-      w.attrs["n2"] = WantVal{"i:22", nullptr, "int64_t"};
+      set_attr(w, "n1", WantVal{"i:33", nullptr, "int64_t"});
+      set_attr(w, "n2", WantVal{"i:22", nullptr, "int64_t"});
       d = "attributes=std::vector<std::pair<std::string,int64_t>> with a repeated key";
       lg.EmitLogRecord(*raw);
     } else if (carrier == 2) {
       CallerValue *v1 = fx.val(V_STR, 1), *v2 = fx.val(V_SP_DBL, 2), *k1 = text_value(fx, "i1"), *k2 = text_value(fx, "i2");
-      w.attrs["i1"] = want_of(v1); w.attrs["i2"] = want_of(v2);
+      set_attr(w, "i1", want_of(v1)); set_attr(w, "i2", want_of(v2));
       d = "attributes=MakeAttributes({{i1,string},{i2,span-double}}), body last";
       CallerValue *b = fx.val(V_STR, 3);
-      w.has_body = true; w.body = want_of(b);
+      set_body(w, want_of(b));
       lg.EmitLogRecord(common::MakeAttributes({{view_of(k1), v1->value()}, {view_of(k2), v2->value()}}), view_of(b));
     } else {
       auto m = std::make_shared<std::unordered_map<std::string, AttributeValue>>();
@@ -876,7 +892,7 @@ void run_values(vf::Ctx &c) {
       keep->objs.push_back(m);
       auto *raw = m.get();
       fx.extra_scribble.push_back([raw]() { for (auto &kv : *raw) kv.second = AttributeValue(false); });
-      w.attrs["u1"] = want_of(v1); w.attrs["u2"] = want_of(v2);
+      set_attr(w, "u1", want_of(v1)); set_attr(w, "u2", want_of(v2));
       d = "attributes=std::unordered_map<std::string,AttributeValue>";
       lg.EmitLogRecord(*raw);
     }
@@ -915,11 +931,11 @@ void run_record(vf::Ctx &c) {
       c.stage("setter");
       switch (op) {
         case 0: rec->SetSeverity(logs::Severity::kWarn); w.has_sev = true; w.sev = (int)logs::Severity::kWarn; d += ".SetSeverity"; break;
-        case 1: { CallerValue *v = fx.val(V_STR, i); rec->SetBody(v->value()); w.has_body = true; w.body = want_of(v); d += ".SetBody(string)"; break; }
-        case 2: { CallerValue *v = fx.val(V_I64, i); rec->SetBody(v->value()); w.has_body = true; w.body = want_of(v); d += ".SetBody(int64)"; break; }
-        case 3: { CallerValue *v = fx.val(V_STR, 10 + i); rec->SetAttribute(view_of(k1), v->value()); w.attrs["k1"] = want_of(v); d += ".SetAttribute(k1,string)"; break; }
-        case 4: { CallerValue *v = fx.val(V_I64, 20 + i); rec->SetAttribute(view_of(k1), v->value()); w.attrs["k1"] = want_of(v); d += ".SetAttribute(k1,int64)"; break; }
-        case 5: { CallerValue *v = fx.val(V_SP_STR, 30 + i); rec->SetAttribute(view_of(k2), v->value()); w.attrs["k2"] = want_of(v); d += ".SetAttribute(k2,span-string)"; break; }
+        case 1: { CallerValue *v = fx.val(V_STR, i); rec->SetBody(v->value()); set_body(w, want_of(v)); d += ".SetBody(string)"; break; }
+        case 2: { CallerValue *v = fx.val(V_I64, i); rec->SetBody(v->value()); set_body(w, want_of(v)); d += ".SetBody(int64)"; break; }
+        case 3: { CallerValue *v = fx.val(V_STR, 10 + i); rec->SetAttribute(view_of(k1), v->value()); set_attr(w, "k1", want_of(v)); d += ".SetAttribute(k1,string)"; break; }
+        case 4: { CallerValue *v = fx.val(V_I64, 20 + i); rec->SetAttribute(view_of(k1), v->value()); set_attr(w, "k1", want_of(v)); d += ".SetAttribute(k1,int64)"; break; }
+        case 5: { CallerValue *v = fx.val(V_SP_STR, 30 + i); rec->SetAttribute(view_of(k2), v->value()); set_attr(w, "k2", want_of(v)); d += ".SetAttribute(k2,span-string)"; break; }
         case 6: rec->SetTimestamp(common::SystemTimestamp(std::chrono::nanoseconds(kTs + i))); w.has_ts = true; w.ts = kTs + i; d += ".SetTimestamp"; break;
         case 7: { CallerValue *nm = text_value(fx, std::string("ev\0nt", 5)); rec->SetEventId(7 + i, view_of(nm)); w.has_ev = true; w.ev_id = 7 + i; w.ev_name = std::string("ev\0nt", 5); d += ".SetEventId(id,name)"; break; }
         case 8: rec->SetEventId(100 + i); w.has_ev = true; w.ev_id = 100 + i; w.ev_name = ""; d += ".SetEventId(id)"; break;
@@ -1004,14 +1020,14 @@ void run_nothing(vf::Ctx &c) {
 void emit_shape(vf::Ctx &c, Fixture &fx, int shape, int ordinal, Want &w, std::string &d) {
   logs::Logger &lg = *fx.logger;
   switch (shape) {
-    case 0: { CallerValue *b = fx.val(V_STR, ordinal); AttributeValue av = b->value(); lg.EmitLogRecord(logs::Severity::kInfo, av); w.has_sev = true; w.sev = (int)logs::Severity::kInfo; w.has_body = true; w.body = want_of(b); d += " Emit(severity,string)"; break; }
+    case 0: { CallerValue *b = fx.val(V_STR, ordinal); AttributeValue av = b->value(); lg.EmitLogRecord(logs::Severity::kInfo, av); w.has_sev = true; w.sev = (int)logs::Severity::kInfo; set_body(w, want_of(b)); d += " Emit(severity,string)"; break; }
     case 1: {
       CallerValue *k = text_value(fx, "k"), *v = fx.val(V_SP_I64, ordinal);
       auto keep = std::make_shared<Keep>();
       KvVector *kv = make_kv(fx, keep, {{k, v}});
       fx.extra_free.push_back([keep]() { keep->objs.clear(); });
       lg.EmitLogRecord(*kv, tid_of(0xd1));
-      w.attrs["k"] = want_of(v); w.x_tid = true; w.tid = hex(tid_of(0xd1));
+      set_attr(w, "k", want_of(v)); w.x_tid = true; w.tid = hex(tid_of(0xd1));
       d += " Emit(attributes,trace-id)";
       break;
     }
@@ -1022,7 +1038,7 @@ void emit_shape(vf::Ctx &c, Fixture &fx, int shape, int ordinal, Want &w, std::s
       CallerValue *b = fx.val(V_CSTR, ordinal);
       rec->SetBody(b->value());
       lg.EmitLogRecord(std::move(rec));
-      w.has_body = true; w.body = want_of(b);
+      set_body(w, want_of(b));
       d += " Create+SetBody(cstring)+Emit";
     }
   }
